@@ -49,7 +49,7 @@ import rtflite.encoding.unified_encoder as ue
 from rtflite.encoding.unified_encoder import UnifiedRTFEncoder
 from rtflite.services.encoding_service import RTFEncodingService
 from rtflite.pagination.strategies import StrategyRegistry
-COLS = ["a", "b", "c", "d"]
+COLS = ["q", "b", "z", "a"]          # deliberately not in alphabetical order
 
 
 def run_section(body, n_pages):
@@ -94,8 +94,8 @@ def glue_ob(oid, timeout):
         oid=oid, sig="pa: bool, pb: bool, sb: bool, sd: bool, new_page: bool, first_row: bool, empty: bool",
         pre=["not (pb and sb)", "(pa or pb) or not new_page"], header=HDR_GLUE, timeout=timeout,
         body=r'''
-    page_by = [c for c, f in zip("ab", (pa, pb)) if f] or None
-    subline_by = [c for c, f in zip("bd", (sb, sd)) if f] or None
+    page_by = [c for c, f in zip(COLS[:2], (pa, pb)) if f] or None
+    subline_by = [c for c, f in zip([COLS[1], COLS[3]], (sb, sd)) if f] or None
     body = rtf.RTFBody(page_by=page_by, subline_by=subline_by, new_page=True if new_page else False,
                        pageby_row="first_row" if first_row else "column", col_rel_width=[1, 2, 3, 4])
     seen, out = run_section(body, 0 if empty else 2)
@@ -142,7 +142,7 @@ import rtflite as rtf
 from rtflite.attributes import BroadcastValue
 from rtflite.services.encoding_service import RTFEncodingService
 SVC = RTFEncodingService()
-COLS = ["a", "b", "c", "d", "e"]
+COLS = ["q", "b", "z", "a", "m"]     # deliberately not in alphabetical order
 W = [1.0, 2.0, 3.0, 4.0, 5.0]
 JUST = ["l", "c", "r", "j", "d"]
 SIZE = [[6, 7, 8, 9, 10], [11, 12, 13, 14, 15]]
@@ -155,8 +155,8 @@ def prep_ob(oid, timeout):
         oid=oid, sig="pa: bool, pb: bool, pd: bool, sb: bool, sc: bool, new_page: bool, first_row: bool",
         pre=["not (pb and sb)", "(pa or pb or pd) or not new_page"], header=HDR_PREP, timeout=timeout,
         body=r'''
-    page_by = [c for c, f in zip("abd", (pa, pb, pd)) if f] or None
-    subline_by = [c for c, f in zip("bc", (sb, sc)) if f] or None
+    page_by = [c for c, f in zip([COLS[0], COLS[1], COLS[3]], (pa, pb, pd)) if f] or None
+    subline_by = [c for c, f in zip([COLS[1], COLS[2]], (sb, sc)) if f] or None
     body = rtf.RTFBody(page_by=page_by, subline_by=subline_by, new_page=True if new_page else False,
                        pageby_row="first_row" if first_row else "column", col_rel_width=list(W),
                        text_justification=[list(JUST)], text_font_size=[list(r) for r in SIZE], text_format="b")
